@@ -215,17 +215,17 @@ def lemma1(n: int, sel: int) -> bool:
         if r is None:
             return verdict(False)
         draws, st = r
-        if st != {} or len(draws) > 1:
+        if st != {}:
             return verdict(False)
         nz = zint(n)
         if not draws:
             lenok = nz == 0            # nothing drawn: fine exactly when there is no text
         else:
+            # exactly the text, once, in the run's state (an empty piece may be "drawn" anywhere: nothing is displayed)
             src, state, ln = draws[0]
-            if src != 0:
-                return verdict(False)
-            # an empty text may be "drawn" in any state: nothing is displayed
-            lenok = z3.And(ln == nz, z3.BoolVal(True) if state == disp(atts) else nz == 0)
+            lenok = z3.And(ln == nz, z3.Or(z3.BoolVal(src == 0 and state == disp(atts)), nz == 0))
+            for (_s, _st, l2) in draws[1:]:
+                lenok = z3.And(lenok, l2 == 0)
         lenok = z3.simplify(lenok)
         nontrivial = z3.And(nz >= 2) if len(disp(atts)) >= 3 else z3.BoolVal(False)
     return verdict(sbool(lenok), sbool(nontrivial))
@@ -323,8 +323,8 @@ def lemma2(n0: int, n1: int, n2: int, sel: int) -> bool:
                     conj.append(zint(ns[i]) == 0)
             else:
                 conj.append(zint(ns[i]) == 0)
-        if di != len(draws):
-            return verdict(False)
+        for (_src, _state, ln) in draws[di:]:
+            conj.append(ln == 0)       # text drawn out of order (or twice) is tolerated only when it is empty
         ok = z3.And(*conj) if conj else z3.BoolVal(True)
         nontrivial = z3.And(*[zint(x) >= 1 for x in ns]) if (len({repr(a) for a in ai}) == K and K) else z3.BoolVal(K == 0)
     return verdict(sbool(ok), sbool(nontrivial))
